@@ -23,10 +23,13 @@ def run(ctx):
     if thorough:
         jobs = [("C15_sim", "simulate", 3000, 6), ("C15_window", "simulate", 1500, 3),
                 ("C15_noexist", "simulate", 300, 1), ("C15_shift_bfs", "bfs", None, 1),
-                ("C15_bfs", "bfs", None, 1)]
+                ("C15_bfs", "bfs", None, 1), ("C15_store", "bfs", None, 1)]
     else:
         jobs = [("C15_sim", "simulate", 600, 4), ("C15_window", "simulate", 300, 2),
-                ("C15_noexist", "simulate", 80, 1), ("C15_shift_bfs", "simulate", 1000, 1)]
+                ("C15_noexist", "simulate", 80, 1), ("C15_shift_bfs", "simulate", 1000, 1),
+                # exhaustive: Store of a (shifted) row, then Set of a bit already present on a column
+                # no Set/import wrote - existence must record the column (seed C15-3)
+                ("C15_store", "bfs", None, 1)]
     res = qcommon.generate_parallel(ctx, jobs)
     for cfg, _, _, _ in jobs:
         beh = qcommon.merge(ctx, res[cfg], cfg)
